@@ -321,3 +321,18 @@ Proof.
   destruct (delivered_at_most_once astep hold (ainit n i) ops) as (wt & H). exists wt.
   rewrite (gfired_refines ops (ainit n i)) in H by (apply inv_init; assumption). exact H.
 Qed.
+
+Theorem reentrant_gated_conserves n i hold react ops :
+  1 <= n -> 1 <= i ->
+  let s0 := mkD (ainit n i) [] [] in
+  let eff := effective astep hold react s0 ops in
+  Permutation (concat (map (fun x => fst (fst x)) (rrun astep hold react s0 ops))
+               ++ undelivered (gfinal astep hold s0 eff))
+              (concat (gfired (asp_step i) (false, []) eff)).
+Proof.
+  intros Hn Hi s0 eff.
+  pose proof (reentrant_conserves astep hold react ops s0) as H. fold eff in H.
+  change (undelivered s0) with (@nil (Z * Z)) in H. change (dwheel s0) with (ainit n i) in H.
+  cbn [app] in H.
+  rewrite (gfired_refines eff (ainit n i)) in H by (apply inv_init; assumption). exact H.
+Qed.
